@@ -389,7 +389,7 @@ def fix_starred_imports(source: str) -> str:
             yield node, ast.ImportFrom(
                 module=node.module,
                 names=[ast.alias(name=name, asname=None) for name in sorted(names)],
-                level=0,
+                level=node.level,
             )
 
     # Remove remaining starred imports
